@@ -31,7 +31,7 @@ REPO = os.environ.get('VERIF_REPO', '/repo')
 
 def real_profile():
     # nested recurrent destinations count attempts per process: not meaningful across pool workers
-    return gen.profile(n_max=8, p_fail=0.15, p_retry=0.2, p_rec_nested=0.0, p_falsy_ad=0.0)
+    return gen.profile(n_max=8, p_fail=0.15, p_retry=0.2, p_rec_nested=0.0, p_falsy_ad=0.0, p_generic=0.15)
 
 
 def simplify_for_real(prog):
@@ -55,10 +55,15 @@ def simplify_for_real(prog):
 def assign_modes(prog, rng, how):
     p = copy.deepcopy(prog)
     for n in p['nodes'].values():
+        if n.get('generic_base'):
+            continue
         if how == 'random':
             n['mode'] = rng.choice(gen.ALL_MODES)
         else:
             n['mode'] = how
+    for n in p['nodes'].values():
+        if n.get('generic_of'):
+            p['nodes'][n['generic_of']]['mode'] = n['mode']     # the mode lives on the generic base class
     return p
 
 
@@ -112,6 +117,12 @@ def work_c17(prop, tier, seed, widx, nworkers):
     items = []
     for i in range(nprog):
         base = simplify_for_real(gen.gen_program(rng, real_profile()))
+        for _try in range(20):
+            # families with a known hang (KF-REC2, KF-CANDSHARED) only cost wall-clock watchdog time on a real loop;
+            # they are judged on the virtual loop, where a hang is decided exactly
+            if not set(base.get('tags', [])) & {'rec_two_scopes', 'candidate_shared', 'rec_outside_consumer'}:
+                break
+            base = simplify_for_real(gen.gen_program(rng, real_profile()))
         variants = [assign_modes(base, rng, how) for how in ('async', 'thread', 'inline', 'process', 'random', 'random', 'thread_tag', 'custom_tag')]
         mods = [materialize.load(v) for v in variants]
         for v, md in zip(variants, mods):
@@ -134,6 +145,7 @@ def work_c17(prop, tier, seed, widx, nworkers):
             for val in rng.sample([0, 1, 2, 3], 2):
                 ref = refsem.evaluate(base, 'r0', val)
                 classes = {}
+                timed_out = False
                 for vi, (v, mod) in enumerate(zip(variants, mods)):
                     try:
                         dag = build_dag(input_node=getattr(mod, v['input']), output_node=getattr(mod, v['output']))
@@ -147,10 +159,14 @@ def work_c17(prop, tier, seed, widx, nworkers):
                     t0 = time.time()
                     try:
                         res = loop.run_until_complete(asyncio.wait_for(
-                            chart.run(pipeline_id='r0', input_kwargs={'x': ('IN', 'r0', val)}), timeout=60))
+                            chart.run(pipeline_id='r0', input_kwargs={'x': ('IN', 'r0', val)}), timeout=20))
                     except asyncio.TimeoutError:
+                        # wall-clock watchdog: inconclusive for this run (never a verdict); skip the program
                         acc.counters['watchdog_timeouts'] = acc.counters.get('watchdog_timeouts', 0) + 1
-                        continue
+                        acc.samples.append({'watchdog_timeout': True, 'tags': sorted(set(base.get('tags', [])) | ref.dyn),
+                                            'modes': {n: v['nodes'][n]['mode'] for n in v['order']}, 'val': val})
+                        timed_out = True
+                        break
                     except BaseException as e:  # noqa: BLE001
                         exc = e
                     acc.evaluations += 1
@@ -168,6 +184,8 @@ def work_c17(prop, tier, seed, widx, nworkers):
                     if len(acc.samples) < 1 and vi == 4:
                         acc.samples.append({'modes': modes, 'val': val, 'outcome': repr(oc)[:200],
                                             'expected': repr(ref.outcome)[:200], 'tags': base.get('tags', [])})
+                if timed_out:
+                    break
                 kinds = {c[0] for c in classes.values()}
                 vals = {repr(c[1]) for c in classes.values() if c[0] == 'value'}
                 if len(kinds) > 1 or len(vals) > 1:
@@ -201,7 +219,7 @@ def work_c17(prop, tier, seed, widx, nworkers):
                     wrong_thread += 1
                 if mode == 'process' and rec['pid'] == main_pid:
                     wrong_thread += 1
-                if mode in ('async', 'inline') and (rec['pid'] != main_pid or not rec['main_thread']):
+                if mode in ('async', 'async_tagged', 'inline') and (rec['pid'] != main_pid or not rec['main_thread']):
                     wrong_thread += 1
     if reused:
         acc.findings.append({'kind': 'node_instance_reused', 'detail': {'invocations_on_reused_objects': reused},
